@@ -34,6 +34,8 @@ def gen_request(ctx, rng, wide=False):
         if rng.random() < 0.02:
             n = 0
         a = {'a': G.pick_operands(rng, host, n), 'b': G.pick_operands(rng, host, m), 'big_endian': be}
+        if n >= 2 and rng.random() < 0.12:
+            a['b'] = list(a['a'])          # a number multiplied by itself: the same gates in the same order
     else:
         kind = rng.choice(SQUARES)
         n = rng.choice([48, 49, 50, 53, 56]) if wide else rng.randint(1, 9)
@@ -135,6 +137,7 @@ def check_host(ctx, r, res):
 
 def search(ctx):
     G.check_generate_mul(ctx, [(n, m) for n in range(1, 5) for m in range(1, 5)] + ([(5, 5), (6, 3), (3, 6)] if ctx.tier == 'thorough' else [(5, 4)]))
+    G.check_generate_square(ctx, list(range(1, 8)) + ([9, 11] if ctx.tier == 'thorough' else []))
     rng = ctx.rng('search')
     prng = random.Random(ctx.seed + 17)
     # (1) bare circuits: every mode on a grid of width pairs
@@ -166,9 +169,20 @@ def search(ctx):
             ctx.case(json.dumps(['bare', name, n, be]))
             ctx.count('bare:' + name)
             bare_value_check(ctx, name, n, 0, be, prng, 30 if n > 20 else 200)
+    # (2a) a number times itself: both operands are the same gates in the same order (every mode, both endiannesses)
+    from common import realize
+    squares = []
+    for name in MULS:
+        for n in (2, 3, 4):
+            for be in (False, True):
+                xs = ['x%d' % i for i in range(n)]
+                host = realize({'gates': [[x, 'INPUT', []] for x in xs], 'inputs': xs, 'outputs': [], 'blocks': []})
+                squares.append({'op': 'gen', 'c': host, 'ctr': 0, 'name': name, 'args': {'a': list(xs), 'b': list(xs), 'big_endian': be}})
     # (2) host circuits with arbitrary operand gates
-    for k in range(ctx.scale(150, 2500)):
-        r = gen_request(ctx, rng, wide=False)
+    for k in range(-len(squares), ctx.scale(150, 2500)):
+        r = squares[k] if k < 0 else gen_request(ctx, rng, wide=False)
+        if k < 0:
+            ctx.count('directed:a_times_a')
         ctx.case(json.dumps(['s', r['name'], r['args'], r['c']['gates']]))
         res = G.py_gen(r)
         if 'err' in res:
